@@ -188,6 +188,14 @@ Definition host_arg (cfg : config) (u : url) : option bytes :=
   then Some (opt_bytes (u_hostname u) ++ match u_port u with Some p => [COLON] ++ dec_of_N p | None => [] end)
   else None.
 
+(* str(url) (url.py __str__), evaluated for the access log when a dynamic route returns a Url:
+   text_() of every truthy component, so a component that is not UTF-8 raises *)
+Definition url_str (u : url) : result unit :=
+  do _ <- (if opt_truthy (u_scheme u) then text_ (opt_bytes (u_scheme u)) else Ok []);
+  do _ <- (if opt_truthy (u_hostname u) then text_ (opt_bytes (u_hostname u)) else Ok []);
+  do _ <- (if opt_truthy (u_remainder u) then text_ (opt_bytes (u_remainder u)) else Ok []);
+  Ok tt.
+
 Section Routing.
   Variable pattern : Type.
   Variable re_match : pattern -> bytes -> bool.    (* re.compile(p).match(text) is not None *)
@@ -229,7 +237,11 @@ Section Routing.
     | Dynamic _ h =>
         match h req with
         | Err e => (st, rs, Err e)
-        | Ok (DUrl u) => (with_choice st (Some u), rs, Ok true)
+        | Ok (DUrl u) =>
+            match url_str u with                      (* self._upstream_proxy_pass = str(self.choice) *)
+            | Ok _ => (with_choice st (Some u), rs, Ok true)
+            | Err e => (with_choice st (Some u), rs, Err e)
+            end
         | Ok (DBytes b) => (client_queue_add st b, rs, Ok needs)
         | Ok (DConn a) => (with_upstream st (Some (mkUp a [] true true)), rs, Ok needs)
         end
@@ -469,10 +481,12 @@ Definition wf_request (r : request) : bool :=
   && forallb (fun e => wf_header (h_orig e, h_value e)) (r_headers r)
   && nodup_keys (map h_orig (r_headers r)).
 
-(* a configured upstream: non-empty UTF-8 host without blanks at its ends, path usable in a request line *)
+(* a configured upstream: non-empty UTF-8 host without blanks at its ends, path usable in a request line,
+   scheme and path UTF-8 *)
 Definition wf_url (u : url) : bool :=
   opt_truthy (u_hostname u) && utf8_valid (opt_bytes (u_hostname u)) && wf_value (opt_bytes (u_hostname u))
-  && wf_token (or_slash (u_remainder u)).
+  && wf_token (or_slash (u_remainder u))
+  && utf8_valid (opt_bytes (u_scheme u)) && utf8_valid (opt_bytes (u_remainder u)).
 
 (* the upstream authority: host[:port] exactly as configured *)
 Definition host_value (u : url) : bytes :=
